@@ -319,7 +319,7 @@ def run(tier: str, seed: int) -> int:
         from .. import session
         import jax.numpy as _jnp
         import exponax as _ex
-        session.run_for(run_, tier, seed, _ex, _jnp, ['filter', 'oddball'], PID)
+        session.run_for(run_, tier, seed, _ex, _jnp, ['filter', 'oddball', 'coefs'], PID)
     return run_.finish()
 
 
